@@ -209,6 +209,25 @@ pub fn c15() -> i32 {
             }
         }
     }
+    // applications that poll more often than they tick, on a zero-latency link: a quality report
+    // and its reply fall into the same instant, the measured round trip is exactly 0 ms
+    for fps in [60usize, 30] {
+        for lead in [0i32, 3, 4, -6] {
+            let mut s = base_scn("c15-zero-rtt", "1+1", 12, 0, false, Pred::RepeatLast, Program::Changing, 0);
+            s.fps = fps;
+            s.round_us = 1_000_000 / fps as u64;
+            s.extra_polls = true;
+            let follower = if lead >= 0 { 1 } else { 0 };
+            for i in 0..lead.abs() {
+                s.scripted_stalls.push((follower, 2 + i));
+            }
+            s.name = format!("{} fps={fps} lead={lead} pattern=0", s.name);
+            s.horizon = 0;
+            s.probe = 12 * fps as i32;
+            s.checks = CK_C02 | CK_STATS;
+            scns.push(s);
+        }
+    }
     // leads that change: the leader gives frames back (stalls) some time after warm-up, or a
     // loss burst hits the link - the gap between current and confirmed frame shrinks or grows
     // between two recommendations
